@@ -57,7 +57,8 @@ def m_str_parse(I, a, t, c):
             return M._ok(BV(64, int(s)))
         except ValueError:
             return Agg('adt:std::result::Result', 1, [Opaque('ParseIntError')])
-    raise M.Unsupported('str::parse to %s' % full[-80:])
+    from . import models_std as _S
+    return _S.m_str_parse_prim(I, a, t, c)
 
 
 def walk(tree, name):
